@@ -115,3 +115,8 @@ if os.environ.get('QV_AST_WITNESSES'):
 w('C06', 'fixed_dim_bound_overflow', 'DIM z(1E+38 * 10)\nDIM y(1 \\ 0)\n')
 w('C19', 'fixed_using_zero_before_point', None, kind='num', format='#.', values=[-0.5])
 w('C07', 'fixed_negative_base_large_exponent', 'x! = -162\nPRINT x! ^ 264.5\n', want='INVALID_OPERAND_VALUE')
+w('C06', 'fixed_frame_limit_hidden_variables', 'DIM a(1 TO 65530)\nFOR i = 1 TO 2\nNEXT\n')
+w('C06', 'fixed_array_operands', 'DIM a(2), b(2)\nIF a = b THEN PRINT 1\n')
+w('C06', 'fixed_function_name_as_for_variable', 'FOR f = 1 TO 2\nNEXT\nFUNCTION f\nf = 1\nEND FUNCTION\n')
+w('C06', 'fixed_const_name_as_for_variable', 'CONST c = 1\nFOR c = 1 TO 2\nNEXT\n')
+w('C06', 'fixed_field_declaration_outside_type', 'x AS INTEGER\nIF x THEN y AS LONG\n')
